@@ -196,6 +196,24 @@ def execute(mat, ctx):
                     ctx.count("skipped_cannot_build_instance")
                     continue
                 compare_rotations(ctx, cls, rot_left(text, rng.randrange(len(text))), rng, TIER, kind)
+                # own stream: plasmids that are nothing but the structure (no backbone at all, or 1..3 nt), clean or with a
+                # third site of the cutter so close to an end of the body that the structure still occurs exactly once
+                # (the class rejects those - at every rotation)
+                r2 = gen.rng_for(mat["seed"], PROP, kind, mat.get("cls") or mat.get("enzyme"), j, cls.__name__, "bare")
+                t = gen.instance(r2, cls.structure(), run_min=2, run_max=30) + gen.rand_dna(r2, r2.choice([0, 0, 0, 1, 3]))
+                if r2.random() < 0.7:
+                    try:
+                        sp = rxmodel.search(cls.structure(), t.upper(), 0, None, True)
+                    except (KeyError, ValueError, IndexError):
+                        sp = None
+                    if sp is not None and len(sp) > 2 and sp[2] is not None:
+                        a, b = sp[2]
+                        w = r2.choice([cls.cutter.site, rc(cls.cutter.site)])
+                        at = a + r2.randint(0, 6) if r2.random() < 0.5 else max(a, b - r2.randint(0, 6))
+                        t = t[:at] + w + t[at:]
+                        ctx.count("c02_bare_structures_with_third_site")
+                ctx.count("c02_bare_structures")
+                compare_rotations(ctx, cls, t, r2, TIER, kind + ":bare")
         ctx.sample({"kind": kind, "class": mat.get("cls") or mat.get("enzyme")}, cap=2)
         return
     if kind == "registry":
